@@ -43,6 +43,7 @@ var props = map[string]*prop{
 		level: "exploration", exhaustive: false,
 		jobs: []job{
 			regress,
+			{name: "concurrent", run: "^TestC01_Concurrent$", weight: 8},
 			{name: "table", run: "^TestC01_Table$"},
 			{name: "random", run: "^TestC01_Random$", shards: [2]int{2, 16}, checks: [2]int{15000, 400000}},
 		},
@@ -52,6 +53,7 @@ var props = map[string]*prop{
 		level: "exploration",
 		jobs: []job{
 			regress,
+			{name: "concurrent", run: "^TestC02_Concurrent$", weight: 8},
 			{name: "table", run: "^TestC02_Table$", shards: [2]int{4, 16}},
 			{name: "random", run: "^TestC02_Random$", shards: [2]int{2, 16}, checks: [2]int{15000, 400000}},
 		},
@@ -108,6 +110,7 @@ var props = map[string]*prop{
 		level: "exploration",
 		jobs: []job{
 			regress,
+			{name: "concurrent", run: "^TestC04_Concurrent$", weight: 8},
 			{name: "seed", run: "^TestC04_Seed$", shards: [2]int{8, 16}, checks: [2]int{200, 15000}},
 		},
 		assumptions: baseAssumptions,
@@ -134,6 +137,7 @@ var props = map[string]*prop{
 		level: "exploration",
 		jobs: []job{
 			regress,
+			{name: "concurrent", run: "^TestC05_Concurrent$", weight: 8},
 			{name: "table", run: "^TestC05_Table$", shards: [2]int{2, 16}},
 			{name: "flips", run: "^TestC05_Flips$", shards: [2]int{4, 16}, checks: [2]int{100, 5000}},
 		},
@@ -187,6 +191,7 @@ var props = map[string]*prop{
 		level: "exploration", exhaustive: true,
 		jobs: []job{
 			regress,
+			{name: "concurrent", run: "^TestC16_Concurrent$", weight: 8},
 			{name: "range", run: "^TestC16_Range$", shards: [2]int{1, 16}},
 			{name: "random", run: "^TestC16_Random$", shards: [2]int{1, 16}, checks: [2]int{20000, 1000000}},
 		},
